@@ -116,14 +116,69 @@ pub fn run(args: &[&str]) -> String {
     }
 }
 
-/// `asmfs <hex of path of top-level file>`: `ingest_file` on a materialised tree.
+static FS_COUNTER: std::sync::atomic::AtomicUsize = std::sync::atomic::AtomicUsize::new(0);
+
+/// `asmfs <hex top path> <entries>`: materialise a file tree in a fresh
+/// directory `T`, then `ingest_file(T/<top>)` (an absolute top path is used as
+/// is).  entries, comma separated: `f:<hexpath>:<hexcontent>` file,
+/// `d:<hexpath>` directory, `l:<hexpath>:<hextarget>` symbolic link (target
+/// verbatim; a target starting with `/` is re-rooted under `T`).  Paths are
+/// relative to `T`.  Reply: `ok <hex>` / `err <class>`; in error classes and
+/// nowhere else the temporary directory never shows.
 pub fn run_fs(args: &[&str]) -> String {
-    let path = String::from_utf8(unhex(args[0])).unwrap();
+    let top = String::from_utf8(unhex(args[0])).unwrap();
+    let n = FS_COUNTER.fetch_add(1, std::sync::atomic::Ordering::SeqCst);
+    let base = std::env::temp_dir().join(format!("etk-h-fs-{}-{}", std::process::id(), n));
+    let _ = std::fs::remove_dir_all(&base);
+    std::fs::create_dir_all(&base).unwrap();
+    let base = std::fs::canonicalize(&base).unwrap();
+    let under = |p: &str| -> std::path::PathBuf {
+        if let Some(stripped) = p.strip_prefix('/') {
+            base.join(stripped)
+        } else {
+            base.join(p)
+        }
+    };
+    for ent in args.get(1).copied().unwrap_or("").split(',').filter(|e| !e.is_empty()) {
+        let parts: Vec<&str> = ent.split(':').collect();
+        let path = under(&String::from_utf8(unhex(parts[1])).unwrap());
+        if let Some(parent) = path.parent() {
+            let _ = std::fs::create_dir_all(parent);
+        }
+        match parts[0] {
+            "f" => {
+                // `@T@` in file contents stands for the location of the materialised tree
+                let content = unhex(parts[2]);
+                let marker = b"@T@";
+                let mut out = Vec::with_capacity(content.len());
+                let mut i = 0;
+                while i < content.len() {
+                    if content[i..].starts_with(marker) {
+                        out.extend_from_slice(base.to_str().unwrap().as_bytes());
+                        i += marker.len();
+                    } else {
+                        out.push(content[i]);
+                        i += 1;
+                    }
+                }
+                std::fs::write(&path, out).unwrap()
+            }
+            "d" => std::fs::create_dir_all(&path).unwrap(),
+            "l" => {
+                let target = String::from_utf8(unhex(parts[2])).unwrap();
+                let target = if target.starts_with('/') { under(&target) } else { std::path::PathBuf::from(target) };
+                std::os::unix::fs::symlink(target, &path).unwrap();
+            }
+            _ => {}
+        }
+    }
+    let top_path = under(&top);
     let mut out = Vec::new();
     let r = {
         let mut ing = Ingest::new(&mut out);
-        ing.ingest_file(std::path::PathBuf::from(&path))
+        ing.ingest_file(top_path)
     };
+    let _ = std::fs::remove_dir_all(&base);
     match r {
         Ok(()) => format!("ok {}", hx(&out)),
         Err(e) => {
